@@ -3254,3 +3254,24 @@ def nan_reject(r: R, chk, qual: str, rule="NAN-REJECT"):
                func=qual, construct="NaN passes the validity test")
     chk.floor(rule, f"`return True` sites of {qual}", n, 1)
     return n
+
+
+# ---------------------------------------------------------------------------------------------------------
+# POLY-ONLY (parameter form): the polynomial basis is evaluated only where the weights are None
+def poly_only_param(r: R, chk, qual: str, weights: str = "weights", callee_suffix: str = "eval_spline_nodes", rule="POLY-ONLY", floor: int = 1):
+    """R_i differs from N_i for every degree >= 1 as soon as the weights are not all equal (also for degree 1: the curve traces the
+    same polygon but with another parametrisation), so the polynomial evaluation may stand in for the rational one only under
+    `weights is None`."""
+    ctx = r.root(qual)
+    n = 0
+    for cr in ctx.calls:
+        if not any(f.qual.endswith(callee_suffix) for f in cr.callees):
+            continue
+        n += 1
+        facts = path_facts(ctx, cr.cfgnode)
+        ok = (f"{weights} is None", True) in facts or (f"{weights} is not None", False) in facts
+        chk.ob(rule, f"{qual}: `{seg(cr.node, 40)}` only where `{weights} is None`", ok, loc=r.loc(ctx, cr.node),
+               detail="" if ok else f"{qual}: `{seg(cr.node, 60)}` (the polynomial basis) can be reached with weights that are not None (tests on the way: {', '.join(sorted(('' if p_ else 'not ') + t_ for t_, p_ in facts)) or 'none'}): the collocation matrix of a rational curve is built from N_i instead of R_i = w_i N_i / sum w_k N_k — different functions for every degree >= 1 — so the fit is not the least-squares fit in the curve's own space",
+               func=qual, construct="polynomial basis for a rational curve")
+    chk.floor(rule, f"calls of {callee_suffix} in {qual}", n, floor)
+    return n
